@@ -52,7 +52,7 @@ REQUIRED = dict(
               'contract:chem.split-profiles-aligned', 'contract:chem.rejects-traces-above-one', 'contract:chem.shape',
               'contract:gas.one-per-layer', 'contract:gas.finite', 'contract:gas.within-controls',
               'rejects-above-one', 'accepts-valid', 'contract-fired'],
-    classes=['gas-added-after-initialisation', 'gas:ConstantGas', 'gas:TwoLayerGas', 'gas:TwoPointGas', 'gas:ArrayGas', 'gas:PowerGas',
+    classes=['gas-added-after-initialisation', 'after-rejection:abundances-written-down', 'after-rejection:valid-sample-accepted', 'gas:ConstantGas', 'gas:TwoLayerGas', 'gas:TwoPointGas', 'gas:ArrayGas', 'gas:PowerGas',
              'fill:1', 'fill:2', 'fill:3', 'fill:4', 'ratio:float', 'ratio:list', 'mixture:dilute', 'mixture:heavy',
              'mixture:unity', 'mixture:exceed', 'avail:memory', 'avail:file', 'avail:none', 'fill-gas-active',
              'trace-inactive', 'nlayers:2', 'nlayers:100', 'via-forward-model', 'via-setter', 'twolayer:smoothed'])
@@ -277,6 +277,21 @@ def wl_mixture(ctx, rng):
     if verdict is not None:
         ctx.observe('mixture:' + (mclass if verdict == 'valid' and mclass != 'exceed' else
                                   ('exceed' if verdict == 'exceed' else 'heavy')))
+    if verdict == 'exceed' and outcome == 'rejected':
+        # a rejected sample, then a valid one on the SAME chemistry object (what a sampler does all the time): the constant
+        # gases are written down through their fitting parameters and the chemistry is initialised again
+        fp = chem.fitting_parameters()
+        cg = [g for g in gases if type(g).__name__ == 'ConstantGas']
+        if cg:
+            for g in cg:
+                v = float(10 ** rng.uniform(-8, -3))
+                fp[g.molecule][3](v)
+                L.redeclare(g, mix_ratio=v)
+            ctx.observe('via-setter', 'after-rejection:abundances-written-down')
+            o6 = init_chem(ctx, chem, n, T, P)
+            v6 = judge(ctx, o6, gases, n, after='rejected-then-lowered')
+            if v6 == 'valid' and o6 == 'accepted':
+                ctx.observe('after-rejection:valid-sample-accepted')
     if verdict == 'valid' and outcome == 'accepted':
         # change a ratio / an abundance through the public fitting parameters and re-initialise (what a sampler does)
         fp = chem.fitting_parameters()
